@@ -22,7 +22,9 @@ RULE = ("(i) the finite header space is enumerated: delimited streams with an em
         "parse_jelly_flat and the rdflib plugin (Graph.parse(data=) / Graph.parse(file name)); the crafted streams and every fourth pyjelly pair are also supplied through "
         "24 awkward file objects (raw / buffered, seekable and not, whose first read or look-ahead shows 1-2 bytes; a buffered "
         "reader with 1-2 bytes left in its buffer; gzip over a dribbling file) - both modes must be detected by get_options_and_frames and parse to "
-        "the same statements. Non-trivial: headers containing 0x0A in byte 1 or 2; distinct by header bytes / stream bytes.")
+        "the same statements. rdflib Graph.serialize asked for each mode through options= / stream= / an explicit flow object, and with "
+        "the options object arriving as copy.copy / deepcopy / pickle round trip / dataclasses.replace of the caller's: the bytes "
+        "must be classified as the mode asked for. Non-trivial: headers containing 0x0A in byte 1 or 2; distinct by header bytes / stream bytes.")
 ASSUMPTIONS = [
     "domain as stated by the property: the first frame is empty or starts with a row (no metadata-only first frame)",
     "non-delimited streams start with their options row (a valid stream)",
@@ -406,21 +408,39 @@ def huge_frames(ctx):
         ctx.case(("huge", k), True, sample={"kind": "huge-frame", "literal_bytes": k})
 
 
+def _rebuild_options(o):
+    """dataclasses.replace on the nested parameter objects (how a caller derives one configuration from another)."""
+    import dataclasses
+    return dataclasses.replace(o, params=dataclasses.replace(o.params), lookup_preset=dataclasses.replace(o.lookup_preset))
+
+
 def rdflib_writer_modes(ctx, rng):
     """Graph.serialize(format='jelly') asked for each mode through options=, stream=+options= and stream= alone:
     what lands in the file must be classified as the mode that was asked for, and both must parse alike."""
     stmts = gen.statements(rng, rng.randint(1, 5), 3, "rdf11")
     want = sorted(T.norm_events([("stmt", s) for s in {T.norm_stmt(x): x for x in stmts}.values()]), key=repr)
     from pyjelly.serialize import flows as F
+    import copy
+    import pickle
+    transports = {"copy": copy.copy, "deepcopy": copy.deepcopy, "pickle": lambda o: pickle.loads(pickle.dumps(o)),
+                  "replace-params": lambda o: _rebuild_options(o)}
     for entry, flow_kind in [("graph_serialize", None), ("graph_serialize_options", None), ("graph_serialize_stream_only", None),
                              ("graph_serialize", "manual"), ("graph_serialize_options", "manual"),
-                             ("graph_serialize", "bounded"), ("graph_serialize_options", "bounded")]:
+                             ("graph_serialize", "bounded"), ("graph_serialize_options", "bounded"),
+                             # the options object reaches the writer as a copy (configuration templates, worker processes)
+                             ("graph_serialize", "via:copy"), ("graph_serialize_options", "via:deepcopy"),
+                             ("graph_serialize_options", "via:pickle"), ("graph_serialize", "via:pickle"),
+                             ("graph_serialize_options", "via:replace-params")]:
         res = {}
         for delimited in (True, False):
             cfg = {"integration": "rdflib", "physical": 1, "entry": entry, "frame_size": 250, "preset": (16, 8, 8), "logical": 1,
                    "generalized": False, "rdf_star": False, "delimited": delimited, "stream_name": ""}
             try:
-                if flow_kind:
+                if flow_kind and flow_kind.startswith("via:"):
+                    pj.OPTIONS_OVERRIDE = transports[flow_kind[4:]](pj.make_options(cfg))
+                    cfg["options_transport"] = flow_kind[4:]
+                    ctx.observe(f"options-transport:{flow_kind[4:]}")
+                elif flow_kind:
                     # the options also carry an explicit flow object - whose kind may 'disagree' with the requested mode
                     flow = F.ManualFrameFlow(logical_type=1) if flow_kind == "manual" else F.FlatTriplesFrameFlow(frame_size=3)
                     pj.OPTIONS_OVERRIDE = pj.make_options(cfg, flow=flow)
@@ -504,6 +524,26 @@ def replay(w: dict):
         res = []
         for delimited in (True, False):
             cfg["delimited"] = delimited
+            if cfg.get("options_transport") or cfg.get("explicit_flow"):
+                import copy
+                import pickle
+                from pyjelly.serialize import flows as F
+                try:
+                    if cfg.get("options_transport"):
+                        tr = {"copy": copy.copy, "deepcopy": copy.deepcopy, "pickle": lambda o: pickle.loads(pickle.dumps(o)),
+                              "replace-params": _rebuild_options}[cfg["options_transport"]]
+                        pj.OPTIONS_OVERRIDE = tr(pj.make_options(cfg))
+                    else:
+                        flow = F.ManualFrameFlow(logical_type=1) if cfg["explicit_flow"] == "manual" else F.FlatTriplesFrameFlow(frame_size=3)
+                        pj.OPTIONS_OVERRIDE = pj.make_options(cfg, flow=flow)
+                    data = pj.serialize(cfg, stmts)
+                except Exception:  # noqa: BLE001 - a refusal is not what the witness was about
+                    continue
+                finally:
+                    pj.OPTIONS_OVERRIDE = None
+                if delimited_jelly_hint(data[:3]) != delimited:
+                    return {"clause": "misclassified", "summary": f"header {data[:3].hex()}"}
+                continue
             data = pj.serialize(cfg, stmts)
             if delimited_jelly_hint(data[:3]) != delimited:
                 return {"clause": "misclassified", "summary": f"header {data[:3].hex()}"}
@@ -514,6 +554,8 @@ def replay(w: dict):
             bad = probe_sources(data, delimited, res[-1])
             if bad:
                 return {"clause": "misclassified-through-source", "summary": f"{bad[0]}: {bad[2]}"}
+        if len(res) < 2:
+            return None
         if res[0] != res[1]:
             return {"clause": "paired-parse-differs", "summary": "differs"}
         twins = {}
